@@ -1216,6 +1216,9 @@ M('C19', 'mps2lat_values_masked: ceiling written with double negation (equivalen
   "shape[0] += (abs(min_i) - 1) * self.N_rings // self.N_sites + 1", "shape[0] += -(-abs(min_i) * self.N_rings // self.N_sites)",
   None, expect='silent')
 
+M('C19', 'multi_coupling_shape clips the box corner to <= 0 (round-4 seed a)', LAT,
+  "            shift_strength[a] = min_dx  # note: can be positive!", "            shift_strength[a] = min(0, min_dx)", 'GEOM-box-corner')
+
 # ---------------------------------------------------------------- C16 / C19
 M('C16', 'GMRES restart: relative residual norm used for normalisation (round-3 seed b)', KRY,
   """        self.total_error.append([npc.norm(self.rs[-1]) / self.b_norm])
